@@ -51,6 +51,12 @@ ASSUMPTIONS = [
     'the driver has no notion of the form of the options argument (none / {} / no log function / debug): those cases are checked on the '
     'implementation side (reference evaluator, invocation record, plain-value equivalence, documented alias target) and against the model '
     'only where the expression names no host function and the world has a log',
+    'numbers at the edges of the number type (stream number-edges): the number type is the IEEE double, so a host int beyond 2^53 is not a value '
+    'of the language (property C12 bounds the int spelling of a number by 1e15). The code computes * and ** of two host ints in floating point '
+    '(fix F24) but + - % of two host ints in integer arithmetic: the sum / difference of two host ints beyond 2^53 and the sign of a zero '
+    'remainder of two host ints (0 for ints, -0 for the same floats) are pinned by neither statement and are not generated. The position of '
+    'not-a-number in the value order is the reference evaluator\'s (three-way test: neither below nor equal = above); the statement itself '
+    'pins only that it equals no other number and that the six operators stay consistent (oracle number-comparison-laws)',
     'evaluations without a globals dict (options None / {} / globals None) carry no maxStatements: no script function is reachable from '
     'them (only values, library functions and host functions in the locals), so they cannot loop',
 ]
@@ -717,7 +723,11 @@ class Ref:
             return self.arith(op, a, b)
         if op == '+':
             if ta == 'string' or tb == 'string':
-                return self.text(a) + self.text(b)
+                try:
+                    return self.text(a) + self.text(b)
+                except ValueError:
+                    self.flags.add('no-text')             # a container holding a non-finite number has no (JSON) text: null (fix F25)
+                    return None
             if (ta, tb) in (('datetime', 'number'), ('number', 'datetime')):
                 dtv, ms = (a, b) if ta == 'datetime' else (b, a)
                 if isinstance(dtv, datetime.datetime) and dtv.tzinfo is not None:
@@ -3024,6 +3034,285 @@ def fresh_replay(inp):
 
 
 # ---------------------------------------------------------------------------------------------------------------------
+# stream number-edges: numbers at the EDGES of the number type (an IEEE double): not-a-number, the two infinities, the two zeros, the
+# smallest and the largest magnitudes, the integers around 2^53 and the magnitudes at which the text of a number changes its form -
+# supplied by the host (float and, where integral, int) or COMPUTED in the script (an overflowed product, the difference of two of
+# them, 0 * -1) - under every operator, in comparisons bare and inside arrays / objects, and in random trees
+# ---------------------------------------------------------------------------------------------------------------------
+
+NAN, INF = float('nan'), float('inf')
+DBL_MAX = sys.float_info.max
+EDGE_FLOATS = [1.0, NAN, INF, -INF, 0.0, -0.0, 5e-324, -5e-324, 2.2250738585072014e-308, 1e-7, 0.1, 0.5, -1.0, 2.0, 3.0, 1e15,
+               float(2 ** 53 - 1), 2.0 ** 53, 2.0 ** 53 + 2, -(2.0 ** 53), 9999999999999998.0, 1e16, -1e16, 1.2345678901234567e19, 1e21, 1e22,
+               1e100, 1e308, -1e308, DBL_MAX, -DBL_MAX]
+EDGE_INTS = [0, 1, -1, 3, 10 ** 15, 2 ** 52, -(2 ** 52), 2 ** 53 - 1, 2 ** 53, -(2 ** 53)]
+EDGE_SPECS = [fnum(x) for x in EDGE_FLOATS] + [{'int': n} for n in EDGE_INTS]
+EDGE_CONTAINERS = [[fnum(INF), fnum(1.0)], {'obj': [['k', fnum(NAN)]]}, [[fnum(-INF)]], [fnum(-0.0)], {'obj': [['k', [fnum(1e16), fnum(NAN)]]]}]
+EDGE_QUICK_PARTNERS = ['vn', 'bt', 'bf', 'se', 's5', 'sa', 'd1', 'dd', 'ae', 'a1', 'oe', 'o1', 'fl', 'rx']
+
+
+def _lit(x):
+    return progen.num(Fraction(x))                        # literals are exactly representable doubles
+
+
+def _overflow():
+    return progen.group(progen.binop('*', _lit(1e308), _lit(10)))                      # (1e308 * 10): the product overflows to +infinity
+
+
+# non-finite values and the negative zero have no literal: the ways a SCRIPT computes them (name -> (the value, expression))
+EDGE_BUILT = {
+    'inf:product': (INF, _overflow),
+    'inf:sum': (INF, lambda: progen.group(progen.binop('+', _lit(DBL_MAX), _lit(DBL_MAX)))),
+    '-inf:negated': (-INF, lambda: progen.group(progen.unop('-', _overflow()))),
+    '-inf:product': (-INF, lambda: progen.group(progen.binop('*', _overflow(), progen.group(progen.binop('-', _lit(0), _lit(1)))))),
+    'nan:inf-inf': (NAN, lambda: progen.group(progen.binop('-', _overflow(), _overflow()))),
+    'nan:0*inf': (NAN, lambda: progen.group(progen.binop('*', _lit(0), _overflow()))),
+    'nan:inf/inf': (NAN, lambda: progen.group(progen.binop('/', _overflow(), _overflow()))),
+    'nan:inf%2': (NAN, lambda: progen.group(progen.binop('%', _overflow(), _lit(2)))),
+    '-0:0*-1': (-0.0, lambda: progen.group(progen.binop('*', _lit(0), progen.group(progen.binop('-', _lit(0), _lit(1)))))),
+    '-0:negated': (-0.0, lambda: progen.group(progen.unop('-', _lit(0)))),
+    '-0:0/-5': (-0.0, lambda: progen.group(progen.binop('/', _lit(0), progen.group(progen.binop('-', _lit(0), _lit(5)))))),
+    '-0:underflow': (-0.0, lambda: progen.group(progen.binop('*', progen.group(progen.unop('-', _lit(5e-324))), _lit(0.5)))),
+    'max:literal': (DBL_MAX, lambda: _lit(DBL_MAX)),
+    'tiny:literal': (5e-324, lambda: _lit(5e-324)),
+    '1e16:product': (1e16, lambda: progen.group(progen.binop('*', _lit(1e8), _lit(1e8)))),
+    '2^53:power': (2.0 ** 53, lambda: progen.group(progen.binop('**', _lit(2), _lit(53)))),
+}
+EDGE_LAW_ORACLE = 'number-comparison-laws'
+EDGE_LAW_TEXT = ('comparisons use the total value order, and == is true only of the same value: for two numbers neither of which is not-a-number '
+                 'the six answers [<, <=, >, >=, ==, !=] are those of their numeric order (-infinity below and +infinity above every finite '
+                 'number, 0 equal to -0, an int equal to the float of the same value); not-a-number is not equal to any other number (== false, '
+                 '!= true); always != is the negation of ==, <= is < or ==, >= is > or ==')
+
+
+def edge_kind(spec):
+    if isinstance(spec, dict) and len(spec) == 1 and next(iter(spec)) in ('num', 'int'):
+        v = build(spec)
+        if isinstance(v, int):
+            return 'int' + ('>2^52' if abs(v) > 2 ** 52 else '')
+        if v != v:
+            return 'nan'
+        if math.isinf(v):
+            return 'infinity'
+        if v == 0:
+            return 'zero' if math.copysign(1.0, v) > 0 else 'negative-zero'
+        return 'tiny' if abs(v) < 1e-300 else ('huge' if abs(v) >= 1e300 else ('>=1e16' if abs(v) >= 1e16 else ('>=2^53' if abs(v) >= 2 ** 53 else 'ordinary')))
+    return 'other:' + spec_kind(spec)
+
+
+def int_sum_beyond_exact(xs, ys):
+    """Two HOST INTS whose sum / difference may leave the integers a double holds exactly (2^53).  The number type is the IEEE double
+    (property C12 bounds the int spelling of a number by 1e15); the code multiplies two ints in floating point (fix F24) but still adds
+    and subtracts them as Python integers, so beyond 2^53 the statement pins neither outcome: + and - of such a pair are not generated."""
+    if isinstance(xs, dict) and isinstance(ys, dict) and 'int' in xs and 'int' in ys:
+        return abs(int(xs['int'])) + abs(int(ys['int'])) > 2 ** 53
+    return False
+
+
+def edge_items(left, right, xs, ys):
+    """every operator on the pair, and the TEXT of every arithmetic result and of the operands (the text tells -0 from 0)"""
+    skip = ('+', '-') if int_sum_beyond_exact(xs, ys) else ()
+    items = [progen.binop(op, left, right) for op in OPS if op not in skip]
+    items += [progen.unop('-', left), progen.unop('!', left), progen.unop('-', right)]
+    # the SIGN of a zero remainder of two host ints is the int's (0), of two floats the divisor's (-0): the text of int % int is not pinned
+    both_int = isinstance(xs, dict) and isinstance(ys, dict) and 'int' in xs and 'int' in ys
+    items += [progen.binop('+', progen.string(''), progen.group(progen.binop(op, left, right))) for op in ARITH
+              if op not in skip and not (op == '%' and both_int)]
+    items += [progen.binop('+', progen.string('<'), left), progen.binop('+', right, progen.string('>')),
+              progen.binop('+', progen.string(''), progen.group(progen.unop('-', left)))]
+    return items
+
+
+def edge_add(batch, case, items, state, key):
+    """One composite case through reference / model; a failing composite is reported item by item (the smallest failing expressions)."""
+    checked = check_case(case)
+    if checked[2]:
+        if state['reports'] < ORDER_REPORT_CAP:
+            state['reports'] += 1
+            reported = False
+            for item in items or []:
+                used = expr_vars(item)
+                single = Case(case.mode, item, {k: v for k, v in case.gspecs.items() if k in used}, None, case.builtins, tags=case.tags)
+                for oracle, want, got in check_case(single)[2]:
+                    reported = True
+                    sig = json.dumps([oracle, single.expr, single.gspecs], sort_keys=True)
+                    if sig not in state.setdefault('seen', set()):                  # a unary item does not depend on the partner
+                        state['seen'].add(sig)
+                        batch.ctx.witness(oracle, single.input(), want, got)
+            if not reported:
+                for oracle, want, got in checked[2]:
+                    batch.ctx.witness(oracle, case.input(), want, got)
+        checked = (checked[0], checked[1], [], checked[3], checked[4])
+    return batch.add(case, checked=checked, key=key)
+
+
+def edge_expected_answers(x, y):
+    """[<, <=, >, >=, ==, !=] for two number specs from the STATEMENT (None: not pinned).  Python compares int / float / infinities exactly."""
+    a, b = build(x), build(y)
+    a_nan, b_nan = a != a, b != b
+    if a_nan and b_nan:
+        return [None] * 6
+    if a_nan or b_nan:
+        return [None, None, None, None, False, True]
+    return [a < b, a <= b, a > b, a >= b, a == b, a != b]
+
+
+def edge_law_check(x, y, answers):
+    """-> description of the violated law, or None"""
+    if answers is None:
+        return 'no answers (six booleans expected)'
+    lt, le, gt, ge, eq, ne = answers
+    if ne != (not eq) or le != (lt or eq) or ge != (gt or eq):
+        return f'inconsistent operators: [<, <=, >, >=, ==, !=] = {answers}'
+    want = edge_expected_answers(x, y)
+    if any(w is not None and w != g for w, g in zip(want, answers)):
+        return f'[<, <=, >, >=, ==, !=] = {answers}, the statement gives {want} (null: not pinned)'
+    return None
+
+
+def edge_law_failure(form, mode, x, y):
+    case = val_case(form, mode, x, y)
+    impl, _, _ = run_impl(mode, case.expr, build_env(case.gspecs))
+    return edge_law_check(x, y, answers_of(impl))
+
+
+def edge_built_case(mode, lname, rname):
+    """both operands COMPUTED by the script: arrayNew(every operator on the pair ...)"""
+    left, right = EDGE_BUILT[lname][1](), EDGE_BUILT[rname][1]()
+    lv, rv = fnum(EDGE_BUILT[lname][0]), fnum(EDGE_BUILT[rname][0])
+    items = edge_items(left, right, lv, rv)
+    gspecs = {'arrayNew': {'lib': 'arrayNew'}} if mode == 'eval' else {}
+    return Case(mode, progen.call('arrayNew', *items), gspecs, tags=['family:computed', 'left:' + edge_kind(lv), 'right:' + edge_kind(rv), 'mode:' + mode]), items
+
+
+EDGE_NAMES = {}                                            # tree variable name -> spec (floats only: see int_sum_beyond_exact)
+for _i, _x in enumerate(EDGE_FLOATS):
+    EDGE_NAMES[f'e{_i}'] = fnum(_x)
+    POOL_TYPE[f'e{_i}'] = 'number'
+
+
+class EdgeTreeGen(TreeGen):
+    """random trees in which about a third of the leaves are edge numbers: host variables, exact literals, or computed non-finite values"""
+
+    def atom(self):
+        r = self.rng.random()
+        if r < 0.2:
+            return var(self.rng.choice(sorted(EDGE_NAMES)))
+        if r < 0.28:
+            x = self.rng.choice([v for v in EDGE_FLOATS if math.isfinite(v) and v >= 0 and not (v == 0 and math.copysign(1.0, v) < 0)])
+            return _lit(x)
+        if r < 0.36:
+            return EDGE_BUILT[self.rng.choice(sorted(EDGE_BUILT))][1]()
+        return super().atom()
+
+
+def stream_number_edges(ctx):
+    st = ctx.stream('number-edges', 'NUMBERS AT THE EDGES of the number type (IEEE double): not-a-number, +/-infinity, 0.0 / -0.0 / int 0, the smallest '
+                                    'subnormal and normal, 0.1, the integers around 2^53 (float and int), 1e15, 9999999999999998, 1e16 .. 1e22 (where the text of a '
+                                    'number changes its form), 1e100, 1e308, the largest double, with signs - (1) host-supplied: ALL ordered pairs of these '
+                                    '41 values, and each against a value of every other type in both positions: all 14 binary and both unary operators plus '
+                                    'the TEXT (string +) of every arithmetic result and operand, in one evaluation; (2) COMPUTED in the script (an overflowed '
+                                    'product or sum, its negation, infinity - infinity, 0 * infinity, infinity / infinity, infinity % 2, 0 * -1, -(0), 0 / -5, an '
+                                    'underflow, 1e8 * 1e8, 2 ** 53): all ordered pairs; (3) the six comparisons of ALL ordered pairs bare and inside '
+                                    'order-embedding arrays / objects (built by the host or by arrayNew / objectNew); (4) random trees to depth 6 in which a '
+                                    'third of the leaves are such numbers. Oracles: the reference evaluator (doubles; typed table), the Lean machine where every '
+                                    'step is finite and exact, and reference-free: the comparison laws of the statement (numeric order with the infinities at '
+                                    'the ends, == only of the same value - not-a-number equals no other number, operators consistent) and order-embedding. '
+                                    'Non-finite numbers and -0 text cannot be sent to the Lean driver (implementation-side oracles only). Not generated: + / - of '
+                                    'two HOST INTS beyond 2^53 (the number type is the double, C12 bounds the int spelling by 1e15; the code adds two ints '
+                                    'exactly but multiplies them in floating point: neither outcome is pinned); non-trivial = every case')
+    rng = ctx.rng('number-edges')
+    batch = Batch(ctx, 'number-edges', st)
+    state = {'reports': 0}
+    k = 0
+    # (1) host-supplied operands, every operator
+    partners = [(n, s) for n, _, s in POOL if n != 'tr' and POOL_TYPE[n] != 'number' and (not ctx.quick or n in EDGE_QUICK_PARTNERS)]
+    pairs = [(xs, ys, 'number') for xs in EDGE_SPECS for ys in EDGE_SPECS]
+    for xs in EDGE_SPECS:
+        for pn, ps in partners:
+            pairs += [(xs, ps, POOL_TYPE[pn]), (ps, xs, POOL_TYPE[pn])]
+        for ps in EDGE_CONTAINERS:                         # containers HOLDING a non-finite number / -0 (they have no JSON text: string + is null)
+            pairs += [(xs, ps, 'edge-' + spec_kind(ps)), (ps, xs, 'edge-' + spec_kind(ps))]
+    pairs += [(ps, qs, 'edge-' + spec_kind(qs)) for ps in EDGE_CONTAINERS + ['s', ''] for qs in EDGE_CONTAINERS + ['s', '']]
+    for xs, ys, ptype in pairs:
+        k += 1
+        mode = 'exec' if k % 2 else 'eval'
+        gspecs = {'x': xs, 'y': ys}
+        items = edge_items(var('x'), var('y'), xs, ys)
+        if mode == 'eval':
+            gspecs['arrayNew'] = {'lib': 'arrayNew'}
+        case = Case(mode, progen.call('arrayNew', *items), gspecs,
+                    tags=['family:operators', 'left:' + edge_kind(xs), 'right:' + edge_kind(ys), 'partner:' + ptype, 'mode:' + mode])
+        edge_add(batch, case, items, state, key=[xs, ys])
+        if k % 400 == 0:
+            batch.flush()
+    batch.flush()
+    # (2) operands computed by the script
+    for lname in sorted(EDGE_BUILT):
+        for rname in sorted(EDGE_BUILT):
+            k += 1
+            case, items = edge_built_case('exec' if k % 2 else 'eval', lname, rname)
+            edge_add(batch, case, items, state, key=[lname, rname])
+    batch.flush()
+    # (3) comparisons: bare and inside order-embedding contexts, with the laws of the statement
+    law_reports = embed_reports = 0
+    for i, xs in enumerate(EDGE_SPECS):
+        for j, ys in enumerate(EDGE_SPECS):
+            k += 1
+            mode = 'exec' if k % 3 else 'eval'
+            forms = ['var'] + ([VAL_FORMS[(i * 3 + j + (i * j) // 5) % len(VAL_FORMS)]] if ctx.quick else VAL_FORMS)
+            bare = None
+            for form in forms:
+                case = val_case(form, mode, xs, ys, tags=['family:comparisons', 'form:' + form, 'mode:' + mode, 'left:' + edge_kind(xs),
+                                                          'right:' + edge_kind(ys)])
+                flags = ['lib-built-operand'] if form == 'built' and mode == 'eval' else []
+                checked = check_case(case)
+                if checked[2]:
+                    if state['reports'] < ORDER_REPORT_CAP:
+                        state['reports'] += 1
+                        for op in REL_OPS:
+                            single = val_case(form, mode, xs, ys, ops=op, tags=case.tags)
+                            for oracle, want, got in check_case(single)[2]:
+                                ctx.witness(oracle, single.input(), want, got)
+                    checked = (checked[0], checked[1], [], checked[3], checked[4])
+                impl, _ = batch.add(case, checked=checked, extra_flags=flags, key=['cmp', form, xs, ys])
+                answers = answers_of(impl)
+                if form == 'var':
+                    bare = answers
+                bad = edge_law_check(xs, ys, answers)
+                if bad is not None and law_reports < ORDER_REPORT_CAP:
+                    law_reports += 1
+                    ctx.witness(EDGE_LAW_ORACLE, {'form': form, 'mode': mode, 'x': xs, 'y': ys, 'text': text_of(case.expr), 'globals': case.gspecs},
+                                EDGE_LAW_TEXT, bad)
+                if form != 'var' and answers != bare and embed_reports < ORDER_REPORT_CAP:
+                    got = embedding_failure(form, mode, xs, ys)
+                    if got is not None:
+                        embed_reports += 1
+                        ctx.witness('order-embedding', {'form': form, 'mode': mode, 'x': xs, 'y': ys, 'text': text_of(case.expr),
+                                                        'globals': case.gspecs}, EMBEDDING_TEXT, got)
+        batch.flush()
+    # (4) random trees with edge numbers among the leaves
+    names = [n for n, _, _ in POOL if n not in ('tr', 'rx')]
+    especs = dict(pool_specs())
+    especs.update(EDGE_NAMES)
+    for i in range(ctx.scale(1500, 30000)):
+        gen = EdgeTreeGen(rng, names + sorted(EDGE_NAMES) + ['tr'], rng.choice([2, 3, 4, 5, 6, 6]))
+        expr = gen.tree()
+        gspecs = dict(especs)
+        tags = ['family:trees', f'depth{min(expr_depth(expr), 9)}']
+        if i % 5 < 3:
+            case = Case('exec', expr, gspecs, tags=tags + ['mode:exec'])
+        else:
+            for fn in LIB_IN_TREES + ['systemLog']:
+                gspecs[fn] = {'lib': fn}
+            case = Case('eval', expr, gspecs, None, builtins=rng.random() < 0.5, tags=tags + ['mode:eval'])
+        batch.add(case, nontrivial=expr_depth(expr) >= 2)
+        if i % 500 == 499:
+            batch.flush()
+    batch.flush()
+
+
+# ---------------------------------------------------------------------------------------------------------------------
 # corpus
 # ---------------------------------------------------------------------------------------------------------------------
 
@@ -3070,6 +3359,11 @@ def stream_corpus(ctx):
 # ---------------------------------------------------------------------------------------------------------------------
 
 def streams(ctx):
+    only = os.environ.get('VERIF_C03_STREAMS')            # development aid: run the named streams only (comma separated)
+    if only:
+        for name in only.split(','):
+            globals()['stream_' + name.replace('-', '_')](ctx)
+        return
     stream_corpus(ctx)
     stream_matrix(ctx)
     stream_expr_eval(ctx)
@@ -3080,6 +3374,7 @@ def streams(ctx):
     stream_host_values(ctx)
     stream_host_calls(ctx)
     stream_options_forms(ctx)
+    stream_number_edges(ctx)
     stream_fresh_process(ctx)
 
 
@@ -3144,6 +3439,9 @@ def replay(witness):
     oracle = witness.get('oracle')
     if oracle == 'total-order-laws':
         return law_failure(witness['input']['law'], witness['input']['strings']) is not None
+    if oracle == EDGE_LAW_ORACLE:
+        inp = witness['input']
+        return edge_law_failure(inp['form'], inp['mode'], inp['x'], inp['y']) is not None
     if oracle == 'order-embedding':
         inp = witness['input']
         return embedding_failure(inp['form'], inp['mode'], inp['x'], inp['y']) is not None
@@ -3193,7 +3491,7 @@ LEVEL_TEXT = ('Theorems, for expression trees of any depth and size: in the TRAC
               'declared in 14 ways that record their invocation and fail part-way with 20 exception classes, in expression shapes, random trees and '
               'multi-step histories on re-used options, with the exactly-once-in-order invocation record; every legal form of the options argument '
               'of evaluate_expression with failing built-in calls; the same cases in this process and in two fresh interpreter processes in opposite '
-              'orders, over values the host identifies by == / hash) and by an independent Python reference evaluator run against the implementation on every case.')
+              'orders, over values the host identifies by == / hash; numbers at the edges of the double format - not-a-number, the infinities, -0, subnormals, 2^53, 1e16 .. 1e308 - host-supplied and computed by overflow, under every operator with the text of the results, in all-pairs comparisons bare and embedded with the comparison laws, and in random trees) and by an independent Python reference evaluator run against the implementation on every case.')
 LEVEL_NOTE = ('Trusted: Lean kernel; extract.py (alias table + identity flags); the correspondence harness and its reference evaluator. '
               'binop_numeric_partial: / % ** results are exact rationals in the model, IEEE doubles in the code - cases with an inexact step, '
               'non-finite values, stringified datetimes / -0 / exponent-form numbers, regexes are checked against the reference evaluator only. '
